@@ -120,7 +120,7 @@ def run(ctx):
     for cx, e, pname, rt in sysc:
         cases.append((cx, e, None, None))
     shad = G.shadow_cases(gen)
-    for cx, e in shad + G.builtin_name_cases() + G.null_provenance_cases():
+    for cx, e in shad + G.builtin_name_cases() + G.null_provenance_cases() + G.computed_number_cases():
         cases.append((cx, e, None, None))
     depth = ctx.pick(4, 6)
     for i in range(ctx.pick(4000, 60000)):
